@@ -2,29 +2,30 @@ package main
 
 import (
 	"fmt"
-	"sort"
 
-	"github.com/diskfs/go-diskfs/filesystem/iso9660"
+	"github.com/diskfs/go-diskfs/filesystem/squashfs"
 
 	"verif/harness/internal/fsx"
 	"verif/harness/internal/memdev"
 )
 
 func main() {
-	es := []fsx.Entry{{Path: ".DS_Store", Data: []byte("a")}, {Path: ".hidden.txt", Data: []byte("b")}, {Path: "normal.txt", Data: []byte("c")}, {Path: "DIR/.DS_Store", Data: []byte("d")}}
-	for _, rr := range []bool{true, false} {
-		d := memdev.New(64 << 20)
-		v, err := fsx.BuildImageOn("iso", d, es, fsx.Opt{Size: 64 << 20, Sector: 2048, IsoOpts: &iso9660.FinalizeOptions{RockRidge: rr, Joliet: !rr}})
-		fmt.Println("rr", rr, "build err:", err)
+	var es []fsx.Entry
+	for n := 40; n <= 75; n++ {
+		dn := fmt.Sprintf("k-%02d", n)
+		es = append(es, fsx.Entry{Path: dn, Dir: true})
+		for i := 0; i < n; i++ {
+			es = append(es, fsx.Entry{Path: dn + "/" + fmt.Sprintf("f%04d.txt", i), Data: []byte{byte(n), byte(i)}})
+		}
+	}
+	for _, bs := range []int64{4096, 131072, 1 << 20} {
+		d := memdev.New(1 << 30)
+		v, err := fsx.BuildImageOn("squashfs", d, es, fsx.Opt{Size: 1 << 30, SquashBlock: bs, SquashOpts: &squashfs.FinalizeOptions{Compression: &squashfs.CompressorGzip{}}})
+		fmt.Println("bs", bs, "build err:", err)
 		if err != nil {
 			continue
 		}
-		w, _ := fsx.Walk(v.FS, 1<<20)
-		var ps []string
-		for p := range w {
-			ps = append(ps, p)
-		}
-		sort.Strings(ps)
-		fmt.Println(ps)
+		w, err := fsx.Walk(v.FS, 1<<20)
+		fmt.Println("  walk entries", len(w), "err:", err)
 	}
 }
